@@ -510,7 +510,10 @@ func (g *gen) bulk() [][]*spb.AFTOperation {
 	n := []int{33, 40, 64, 65, 66, 100, 128, 129, 130, 200, 257, 300}[g.pick(12)]
 	kind := []Kind{KNH, KNH, KNHG, KV4, KV4, KV6, KMPLS}[g.pick(7)]
 	var ops []*spb.AFTOperation
-	add := func(e *spb.AFTOperation) { e.Id, e.NetworkInstance, e.Op = g.id(), ni, spb.AFTOperation_ADD; ops = append(ops, e) }
+	add := func(e *spb.AFTOperation) {
+		e.Id, e.NetworkInstance, e.Op = g.id(), ni, spb.AFTOperation_ADD
+		ops = append(ops, e)
+	}
 	mkNH := func(i uint64) {
 		add(&spb.AFTOperation{Entry: &spb.AFTOperation_NextHop{NextHop: &aftpb.Afts_NextHopKey{Index: i, NextHop: &aftpb.Afts_NextHop{IpAddress: sv(fmt.Sprintf("203.0.%d.%d", (i>>8)&255, i&255))}}}})
 	}
